@@ -34,6 +34,11 @@ def gen_cases(tier, seed):
         cases.append({"id": "T/%d/%d" % (seed, i), "seed": int(rng.integers(0, 2 ** 31)), "threads": int([2, 4, 8, 8, 16][int(rng.integers(0, 5))]),
                       "ops_per_thread": int(rng.integers(4, 10)), "scheme": ["simple", "hive"][i % 2], "nrg": int(rng.integers(10, 25)),
                       "yield_p": [0.0, 0.02, 0.1][i % 3], "kind": "read"})
+    # a handle nobody has used yet, every thread starting with a filtered read: first use of lazily built per-handle state
+    for i in range(60 if tier == "quick" else 1500):
+        cases.append({"id": "F/%d/%d" % (seed, i), "seed": int(rng.integers(0, 2 ** 31)), "threads": int([4, 8, 8, 16][int(rng.integers(0, 4))]),
+                      "ops_per_thread": int(rng.integers(1, 3)), "scheme": ["simple", "hive"][i % 2], "nrg": int(rng.integers(30, 70)),
+                      "yield_p": [0.0, 0.05, 0.2][i % 3], "kind": "read", "fresh": True})
     for i in range(12 if tier == "quick" else 200):
         cases.append({"id": "W/%d/%d" % (seed, i), "seed": int(rng.integers(0, 2 ** 31)), "threads": int([2, 4, 8][int(rng.integers(0, 3))]),
                       "yield_p": [0.0, 0.05][i % 2], "kind": "write", "parts": int(rng.integers(3, 9))})
@@ -61,10 +66,11 @@ def make_ops(rng, nrg, n):
         k = OPS[int(rng.integers(0, len(OPS)))]
         op = {"k": k}
         if k == "cols":
-            cols = ["rid", "v0", "v1", "v2", "c"]
-            op["columns"] = [cols[i] for i in rng.permutation(5)[:int(rng.integers(1, 5))]]
+            cols = ["rid", "v0", "v1", "v2", "c", "ts"]
+            op["columns"] = [cols[i] for i in rng.permutation(6)[:int(rng.integers(1, 5))]]
         elif k == "filter":
             op["lo"] = int(rng.integers(0, 200))
+            op["f"] = ["rid", "v1", "ts", "v1in", "mix", "ts"][int(rng.integers(0, 6))]
         elif k in ("slice",):
             a, b = sorted(int(x) for x in rng.integers(0, nrg + 1, 2))
             op["a"], op["b"] = a, b
@@ -85,7 +91,21 @@ def do_op(pf, op):
     if k == "cols":
         return _hash_df(pf.to_pandas(columns=list(op["columns"])))
     if k == "filter":
-        return _hash_df(pf.to_pandas(filters=[("rid", ">=", op["lo"])]))
+        f = op.get("f", "rid")
+        lo = op["lo"]
+        if f == "rid":
+            flt = [("rid", ">=", lo)]
+        elif f == "v1":       # text column with statistics (converted type UTF8)
+            flt = [("v1", ">=", "s%d" % (lo % 20))]
+        elif f == "ts":       # timestamp column (converted type)
+            flt = [("ts", ">", pd.Timestamp("2021-01-01") + pd.Timedelta(lo, "h"))]
+        elif f == "v1in":
+            flt = [("v1", "in", ["s%d" % (lo % 20), "s%d" % ((lo + 7) % 20)])]
+        else:
+            flt = [[("ts", "<=", pd.Timestamp("2021-01-01") + pd.Timedelta(lo, "h")), ("v1", "!=", "s3")], [("rid", "<", lo // 2)]]
+        if op.get("count"):
+            return repr(int(pf.count(filters=flt)))
+        return _hash_df(pf.to_pandas(filters=flt))
     if k == "cats":
         return _hash_df(pf.to_pandas(categories=[]))
     if k == "slice":
@@ -169,7 +189,8 @@ def run_case(case):
         n = case["nrg"] * 10
         df = pd.DataFrame({"rid": np.arange(n, dtype="int64"), "v0": rng.integers(-50, 50, n).astype("int64"),
                            "v1": np.array(["s%d" % x for x in rng.integers(0, 20, n)], dtype=object), "v2": rng.standard_normal(n),
-                           "c": pd.Categorical.from_codes(rng.integers(0, 3, n), categories=["x", "y", "z"])})
+                           "c": pd.Categorical.from_codes(rng.integers(0, 3, n), categories=["x", "y", "z"]),
+                           "ts": pd.Timestamp("2021-01-01") + pd.to_timedelta(np.arange(n), "h")})
         scheme = case["scheme"]
         path = C.fresh_path(".parq" if scheme == "simple" else "")
         fastparquet.write(path, df, row_group_offsets=10, file_scheme=scheme, stats=True)
@@ -177,6 +198,10 @@ def run_case(case):
         nrg = len(pf.row_groups)
         T = case["threads"]
         plans = [make_ops(rng, nrg, case["ops_per_thread"]) for _ in range(T)]
+        fresh = bool(case.get("fresh"))
+        if fresh:
+            for ti, plan in enumerate(plans):
+                plan.insert(0, {"k": "filter", "lo": int(rng.integers(0, n)), "f": ["ts", "v1", "mix", "v1in", "ts"][ti % 5], "count": bool(ti % 3 == 2)})
         # sequential baseline on a separate, identical handle
         base_pf = fastparquet.ParquetFile(path)
         baseline = {}
@@ -185,10 +210,12 @@ def run_case(case):
                 key = repr(sorted(op.items()))
                 if key not in baseline:
                     baseline[key] = do_op(base_pf, op)
-        parent_before = do_op(pf, {"k": "full"})
+        parent_before = do_op(base_pf if fresh else pf, {"k": "full"})    # a fresh handle is not touched before the threads start
         logs = [[] for _ in range(T)]
         barrier = threading.Barrier(T)
-        delays = [float(x) for x in rng.random(T) * 0.002]
+        delays = [0.0] * T if fresh else [float(x) for x in rng.random(T) * 0.002]
+        if fresh:
+            counters["fresh_handle_runs"] = 1
 
         def worker(ti):
             log = logs[ti]
@@ -330,4 +357,4 @@ def run_write_case(case, rng, res, counters, y):
 
 
 def required(tier):
-    return {"runs": 60, "ops_overlapping": 1000, "ov_slice_vs_read": 100, "part_files_compared": 30, "yield_injections": 1000}
+    return {"runs": 60, "ops_overlapping": 1000, "ov_slice_vs_read": 100, "part_files_compared": 30, "yield_injections": 1000, "fresh_handle_runs": 30}
